@@ -80,6 +80,13 @@ func underSchedule(in *Input, refRes, refErr string, sch sim.Schedule, tape *sim
 	}
 	if sch.EOFWithData {
 		st.Inc("probe_eof_with_data")
+		st.Inc("fired_eof_with_data")
+	}
+	if r.MultiChunk {
+		st.Inc("fired_short_reads_delivery")
+	}
+	if !sch.Seekable {
+		st.Inc("fired_non_seekable_source")
 	}
 	return nil
 }
@@ -263,11 +270,12 @@ func C12() *sim.Check {
 
 	return &sim.Check{
 		Prop: "C12", Harness: "h_deliver", Level: "exploration",
-		Rule:     "An input (program incl. eexec tails, CMap file, Type 1 font in 4 formats optionally re-laid-out / positioned mid-stream, AFM text, PFB stream; 1 in 6 damaged) is drawn and read once under the reference delivery (one Read, seekable); then under drawn schedules (fixed k, random, alternating, two-chunk split, cut lists, EOF with data, seekable or not) and in batch all-splits under EVERY two-chunk split position (thorough; 64 sampled + structural boundaries in quick for inputs > 400 bytes). Oracle: canonical dump of (result, error) equal to the reference; no panic; no unbounded Read calls. multicall: a program without stop/currentfile operators is fed in 2-5 Execute calls cut at white-space gaps (also inside open procedure bodies) and compared with one call. distinct_nontrivial counts distinct (input hash, surface, delivered chunk sequence fingerprint) with >= 2 non-empty chunks and input >= 16 bytes, plus distinct multi-call histories with > 1 call.",
-		Assume:   []string{"readers never return (0, nil)", "a panic on the reference delivery is an input problem (C01, not claimed) and the input is skipped", "DSC comments are compared across call splits only when the run succeeds (Execute drops a failing call's comments)"},
-		RealStub: map[string]any{"real": []string{"Interpreter.Execute, ReadCMap, type1.Read, afm.Read, pfb.Decode and everything below them (unmodified /repo code)", "bufio.Scanner, io.ReadFull"}, "stub": []string{"the io.Reader / io.ReadSeeker handed to the library (SimReader)", "caller of pfb.Decode (buffer sizes)"}},
-		Batches:  []*sim.Batch{sched, multi, splits},
-		Probes:   []string{"probe_split_at_structural_boundary", "probe_font_nonseekable_peek", "probe_eof_with_data", "probe_cut_inside_open_procedure", "inputs_with_every_split_position", "fonts_relaid_out"},
+		Rule:        "An input (program incl. eexec tails, CMap file, Type 1 font in 4 formats optionally re-laid-out / positioned mid-stream, AFM text, PFB stream; 1 in 6 damaged) is drawn and read once under the reference delivery (one Read, seekable); then under drawn schedules (fixed k, random, alternating, two-chunk split, cut lists, EOF with data, seekable or not) and in batch all-splits under EVERY two-chunk split position (thorough; 64 sampled + structural boundaries in quick for inputs > 400 bytes). Oracle: canonical dump of (result, error) equal to the reference; no panic; no unbounded Read calls. multicall: a program without stop/currentfile operators is fed in 2-5 Execute calls cut at white-space gaps (also inside open procedure bodies) and compared with one call. distinct_nontrivial counts distinct (input hash, surface, delivered chunk sequence fingerprint) with >= 2 non-empty chunks and input >= 16 bytes, plus distinct multi-call histories with > 1 call.",
+		Assume:      []string{"readers never return (0, nil)", "a panic on the reference delivery is an input problem (C01, not claimed) and the input is skipped", "DSC comments are compared across call splits only when the run succeeds (Execute drops a failing call's comments)"},
+		RealStub:    map[string]any{"real": []string{"Interpreter.Execute, ReadCMap, type1.Read, afm.Read, pfb.Decode and everything below them (unmodified /repo code)", "bufio.Scanner, io.ReadFull"}, "stub": []string{"the io.Reader / io.ReadSeeker handed to the library (SimReader)", "caller of pfb.Decode (buffer sizes)"}},
+		Batches:     []*sim.Batch{sched, multi, splits},
+		SimTimeUnit: "simulated Read and Seek calls served to the library", SimTimeCounters: []string{"sim_read_calls", "sim_seek_calls"},
+		Probes: []string{"probe_split_at_structural_boundary", "probe_font_nonseekable_peek", "probe_eof_with_data", "probe_cut_inside_open_procedure", "inputs_with_every_split_position", "fonts_relaid_out"},
 	}
 }
 
